@@ -937,7 +937,11 @@ func (rl *Shell) killRegion() {
 		return
 	}
 
+	// The point ends where the killed region started.
+	cpos := rl.selection.Cursor()
+
 	rl.Buffers.Write([]rune(rl.selection.Cut())...)
+	rl.cursor.Set(cpos)
 }
 
 // Copy the text in the region to the kill buffer.
